@@ -70,4 +70,10 @@ PROPS = {
             R("h23", "c17", "TestC17_Expand", (30000, 4), (2000000, 16, 3000)),
         ],
     },
+    "C18": {
+        "level": "exploration",
+        "units": [
+            R("h23", "c18", "TestC18_Requests", (8000, 8), (300000, 16, 3000)),
+        ],
+    },
 }
